@@ -1153,3 +1153,182 @@ pub fn shape(h: &History) -> String {
     s.push_str(&format!("r{}", rej.len().min(3)));
     s
 }
+
+// ---------------------------------------------------------------------------------------
+// degenerate domain (C17)
+// ---------------------------------------------------------------------------------------
+
+pub fn weird_language(rng: &mut Rng) -> String {
+    match rng.below(12) {
+        0 => String::new(),
+        1 => "a".into(),
+        2 => "ab".into(),
+        3 => "abcd".into(),
+        4 => "ENG".into(),
+        5 => "\u{65e5}\u{672c}\u{8a9e}".into(),
+        6 => "\u{e9}".into(),
+        7 => "a\0b".into(),
+        8 => "x".repeat(1000),
+        9 => "\u{1F600}\u{1F600}".into(),
+        10 => "   ".into(),
+        _ => "~~~".into(),
+    }
+}
+
+/// Perturb a documented-domain history into the degenerate domain. Returns the list of
+/// degenerate-argument classes applied (for coverage accounting).
+pub fn degenerate(rng: &mut Rng, h: &mut History, allow_huge: bool) -> Vec<&'static str> {
+    let mut classes = Vec::new();
+    let n = 1 + rng.below(3);
+    for _ in 0..n {
+        match rng.below(14) {
+            0 => {
+                h.timescale = 0;
+                classes.push("movie_timescale_0");
+            }
+            1 => {
+                for op in h.ops.iter_mut() {
+                    if let Op::Add(t) = op {
+                        if rng.bool() {
+                            t.timescale = 0;
+                        }
+                    }
+                }
+                classes.push("track_timescale_0");
+            }
+            2 => {
+                for op in h.ops.iter_mut() {
+                    if let Op::Add(t) = op {
+                        t.language = weird_language(rng);
+                    }
+                }
+                classes.push("language_weird");
+            }
+            3 => {
+                let sl = *rng.pick(&[0usize, 1, 2, 3, 4, 65535, 65536, 70000]);
+                let pl = *rng.pick(&[0usize, 1, 3, 4, 65535, 65536, 100000]);
+                let sps = gen_sps(rng, sl);
+                let pps = rng.bytes(pl);
+                let pos = rng.usize_below(h.ops.len().max(1));
+                h.ops.insert(pos.min(h.ops.len()), Op::Add(TrackSpec {
+                    kind: 0,
+                    timescale: 1000,
+                    language: "und".into(),
+                    media: Media::Avc { w: 1, h: 1, sps, pps },
+                }));
+                classes.push("param_set_length");
+            }
+            4 => {
+                for op in h.ops.iter_mut() {
+                    if let Op::Write { s, .. } = op {
+                        s.duration = u32::MAX;
+                    }
+                }
+                classes.push("durations_max");
+            }
+            5 => {
+                for op in h.ops.iter_mut() {
+                    if let Op::Write { s, .. } = op {
+                        s.cts = *rng.pick(&[i32::MIN, i32::MAX, -1]);
+                    }
+                }
+                classes.push("cts_extreme");
+            }
+            6 => {
+                if allow_huge {
+                    // one very large sample, preferably on an AAC track
+                    let tracks = h.tracks().len() as u32;
+                    let aac: Vec<u32> = h
+                        .tracks()
+                        .iter()
+                        .enumerate()
+                        .filter(|(_, t)| matches!(t.media, Media::Aac { .. }))
+                        .map(|(i, _)| i as u32 + 1)
+                        .collect();
+                    if tracks > 0 {
+                        let tid = if !aac.is_empty() { *rng.pick(&aac) } else { 1 + rng.below(tracks as u64) as u32 };
+                        let size = *rng.pick(&[(1u32 << 24) - 1, 1 << 24, (1 << 24) + 1, 20 << 20]);
+                        let pos = h.ops.len().saturating_sub(1);
+                        h.ops.insert(pos, Op::Write { track_id: tid, s: SampleSpec { size, fill: rng.next_u64(), duration: 1, cts: 0, sync: true } });
+                        classes.push("huge_sample");
+                    }
+                }
+            }
+            7 => {
+                h.ops.push(Op::End);
+                classes.push("end_twice");
+            }
+            8 => {
+                // writes after write_end, optionally finished again
+                let tracks = h.tracks().len() as u32;
+                if tracks > 0 {
+                    for _ in 0..1 + rng.below(3) {
+                        h.ops.push(Op::Write {
+                            track_id: 1 + rng.below(tracks as u64) as u32,
+                            s: SampleSpec { size: rng.below(40) as u32, fill: rng.next_u64(), duration: rng.below(5000) as u32, cts: 0, sync: rng.bool() },
+                        });
+                    }
+                    if rng.bool() {
+                        h.ops.push(Op::End);
+                    }
+                    classes.push("write_after_end");
+                }
+            }
+            9 => {
+                h.ops.push(Op::Add(gen_track(rng, true)));
+                if rng.bool() {
+                    h.ops.push(Op::End);
+                }
+                classes.push("add_after_end");
+            }
+            10 => {
+                // no tracks at all
+                h.ops.retain(|o| !matches!(o, Op::Add(_)));
+                classes.push("no_tracks");
+            }
+            11 => {
+                for op in h.ops.iter_mut() {
+                    if let Op::Write { track_id, .. } = op {
+                        if rng.chance(1, 3) {
+                            *track_id = *rng.pick(&[0u32, u32::MAX, 77, 1 << 31]);
+                        }
+                    }
+                }
+                classes.push("unknown_track_ids");
+            }
+            12 => {
+                // drop the final write_end
+                if matches!(h.ops.last(), Some(Op::End)) {
+                    h.ops.pop();
+                }
+                classes.push("no_end");
+            }
+            _ => {
+                for op in h.ops.iter_mut() {
+                    if let Op::Add(t) = op {
+                        if let Media::Avc { w, h, .. } | Media::Hevc { w, h } | Media::Vp9 { w, h } = &mut t.media {
+                            *w = *rng.pick(&[0u16, 65535]);
+                            *h = *rng.pick(&[0u16, 65535]);
+                        }
+                    }
+                }
+                classes.push("dimension_extremes");
+            }
+        }
+    }
+    classes
+}
+
+/// The history made of exactly the calls that returned Ok (the model for C17's
+/// "when every call succeeds the output satisfies the other muxer properties" is built
+/// from what the muxer accepted). Track ids are those the API handed out (position among
+/// the successful add_track calls).
+pub fn effective_history(h: &History, calls: &[CallRes]) -> History {
+    let mut e = History { major: h.major, minor: h.minor, brands: h.brands.clone(), timescale: h.timescale, ops: Vec::new() };
+    for (op, res) in h.ops.iter().zip(calls.iter()) {
+        if res.is_ok() {
+            e.ops.push(op.clone());
+        }
+    }
+    e
+}
